@@ -123,7 +123,7 @@ Proof.
                 (repeat 0 (length (ctx_included bname zlist_eqb has_underscore (k_keepall c) (k_genome c) (k_extra c))))
                 G3 Hch Hc Hincl (repeat_length _ _)) as H.
   simpl in H. rewrite HD in H.
-  rewrite !andb_true_iff in Hm. destruct Hm as [[[[[[M1 M2] M3] _] _] _] _].
+  rewrite !andb_true_iff in Hm. destruct Hm as [[[[[[[[[M1 M2] M3] _] _] _] _] _] _] _].
   rewrite !andb_true_iff. repeat split.
   - eapply link_all; [|exact M1].
     destruct (spec_sync bname zlist_eqb ids [] _ _ (k_groups c)); simpl; apply H.
@@ -156,15 +156,21 @@ Qed.
 Theorem multistream_route_link (c : case) :
   k_route c = 1 -> gen_ok c = true -> model_ok c = true ->
   let exp := spec_sync bname zlist_eqb ids [] (k_genome c) [] (k_groups c) in
-  all_ok (meets zll_eqb exp) (k_mslist c) = true /\ (exp <> None -> spec_ok c = true).
+  all_ok (meets zll_eqb exp) (k_mslist c) = true /\ all_ok (meets zll_eqb exp) (k_mslist_tab c) = true
+  /\ (exp <> None -> spec_ok c = true).
 Proof.
   intros Hr Hg Hm exp. destruct (gen_ok_facts c Hg) as [Ho [HD [Hch [Hc HR]]]].
   unfold spec_ok, model_ok in *. rewrite Hg, Hr in *. simpl in *.
+  destruct (table_is_one_chunk_stream (k_genome c) (k_chunks c) Hch Hc) as [_ Htab]. rewrite Htab in Hm.
+  unfold multistream_trace in Hm.
   pose proof (head_multistream_end_to_end (k_genome c) (k_chunks c) Ho Hch Hc) as H. simpl in H. rewrite HR in H. fold exp in H.
-  rewrite !andb_true_iff in Hm. destruct Hm as [[[[[[M1 M2] M3] _] _] _] _].
-  assert (L : all_ok (meets zll_eqb exp) (k_mslist c) = true).
-  { eapply link_all; [|exact M1]. destruct exp; [apply H|exact H]. }
-  split; [exact L|]. intros Hex. unfold exp in *. clear exp.
+  rewrite !andb_true_iff in Hm. destruct Hm as [[[[[[[[[M1 M2] M3] _] _] _] _] T1] T2] T3].
+  assert (HL : match exp with Some a => pull_all (synched_head (k_genome c) (grouped bname zlist_eqb (k_chunks c))) = Done a
+                         | None => exists cd, pull_all (synched_head (k_genome c) (grouped bname zlist_eqb (k_chunks c))) = Err cd end).
+  { destruct exp; [apply H|exact H]. }
+  assert (L : all_ok (meets zll_eqb exp) (k_mslist c) = true) by (eapply link_all; [exact HL|exact M1]).
+  assert (LT : all_ok (meets zll_eqb exp) (k_mslist_tab c) = true) by (eapply link_all; [exact HL|exact T1]).
+  split; [exact L|]. split; [exact LT|]. intros Hex. unfold exp in *. clear exp.
   destruct (spec_sync bname zlist_eqb ids [] (k_genome c) [] (k_groups c)) as [a|] eqn:Ee; [|congruence]. destruct H as [H1 _].
   assert (Hz : pull_n (length (k_genome c)) (synched_head (k_genome c) (grouped bname zlist_eqb (k_chunks c))) = Done a).
   { unfold synched_head, SYNC_AHEAD. rewrite (grouped_chunk_invariant bname zlist_eqb zlist_eqb_eq _ Hch Hc), HR.
@@ -173,6 +179,9 @@ Proof.
   - exact L.
   - eapply (link_all zll_eqb _ (Some a)); [|exact M2]. exact Hz.
   - eapply (link_all zz_eqb _ (Some (len (k_genome c), len (concat a)))); [|exact M3]. simpl. rewrite Hz. reflexivity.
+  - exact LT.
+  - eapply (link_all zll_eqb _ (Some a)); [|exact T2]. exact Hz.
+  - eapply (link_all zz_eqb _ (Some (len (k_genome c), len (concat a)))); [|exact T3]. simpl. rewrite Hz. reflexivity.
 Qed.
 
 (* ---------- left_join route ---------- *)
@@ -199,7 +208,7 @@ Proof.
   intros H0 H1 Hg Hm. destruct (gen_ok_facts c Hg) as [Ho [HD [Hch [Hc HR]]]].
   unfold spec_ok, model_ok in *. rewrite Hg in *.
   apply Z.eqb_neq in H0. apply Z.eqb_neq in H1. rewrite H0, H1 in *. simpl in *.
-  rewrite !andb_true_iff in Hm. destruct Hm as [[[[[[M1 _] _] _] _] _] _].
+  rewrite !andb_true_iff in Hm. destruct Hm as [[[[[[[[[M1 _] _] _] _] _] _] _] _] _].
   rewrite (grouped_chunk_invariant bname zlist_eqb zlist_eqb_eq _ Hch Hc), HR in M1.
   eapply link_all; [|exact M1].
   pose proof (left_join_spec bname zlist_eqb zlist_eqb_eq Z ids (sizes_of (k_genome c)) (k_groups c)) as H.
